@@ -1024,10 +1024,12 @@ class ExperimentTopology(Topology):
         """
         Prune this interface
         """
-        peers = i.get_peers(itype=InterfaceType.ServicePort)
-        if peers and len(peers) == 1 and i.type != InterfaceType.ServicePort:
-            # disconnect from the service it is connected to (removes the service-side port and link)
-            self.get_parent_element(peers[0]).disconnect_interface(i)
+        # the interface goes together with its sub-interfaces, which can be connected to services on their own
+        for ii in self._with_sub_interfaces([i]):
+            peers = ii.get_peers(itype=InterfaceType.ServicePort)
+            if peers and len(peers) == 1 and ii.type != InterfaceType.ServicePort:
+                # disconnect from the service it is connected to (removes the service-side port and link)
+                self.get_parent_element(peers[0]).disconnect_interface(ii)
         self.graph_model.remove_cp_and_links(node_id=i.node_id)
 
     def prune(self, reservation_state):
